@@ -203,6 +203,13 @@ func (s *State) frameObligations(fc *FuncContract, args []Value) {
 	var regs []*Region
 	logOK := false
 	for _, m := range fc.Modifies {
+		if m.When != nil {
+			// the region may change only when the condition held in the pre-state
+			cond := s.evalClause(m.When, args, s.entry)
+			if !s.proves(cond) {
+				continue
+			}
+		}
 		for _, r := range s.evalModifies(m, args) {
 			if r != nil && r.Ghost == "log" {
 				logOK = true
